@@ -72,7 +72,7 @@ def run(chk):
                          "merge_faces. non-trivial = has a non-triangular face (merging/sorting matters)")
     cases, meta = [], []
     for ishape in range(nshape):
-        kind, V = gen.convex_set(rng, kinds=("ellipsoid", "lattice", "lattice", "prismatic", "prismatic", "flat", "needle", "creased", "chamfered"))
+        kind, V = gen.convex_set(rng, kinds=("ellipsoid", "lattice", "lattice", "prismatic", "prismatic", "flat", "needle", "creased", "chamfered", "bigprism", "biglattice"))
         if ishape % 6 == 0:
             kind, V = gen.convex_set(rng, kinds=("ellipsoid",))
         if kind == "ellipsoid" and (ishape % 6 == 0 or rng.random() < 0.6):
